@@ -59,7 +59,8 @@ claim("C09",
       "&mut ShellValue, that unset and whole-variable replacement consult readonly and unset leaves its scope walk only through the "
       "readonly-checking remover, that the command scope guard / post_execute pop is "
       "reached on every SimpleCommand dispatch path, that enter/leave_function pair, and that child environments come from one "
-      "env_clear + iter_exported site, and that every yes/no test of the array kind counts the declared-but-unassigned kind (the -A/-a attribute "
+      "env_clear + iter_exported site that skips unset values and arrays, that a declaration with a value tests readonly before any attribute "
+      "change or conversion of the existing variable, and that every yes/no test of the array kind counts the declared-but-unassigned kind (the -A/-a attribute "
       "shapes the first assignment).",
       "Trusted: rustc MIR and field resolution. Not decided: dynamic-scoping visibility, attribute effects (-i -l -u), bash equality. "
       "Known finding: ShellEnvironment::add shadows readonly variables (local / temporary assignments).",
